@@ -332,6 +332,26 @@ fn c15_grid(ctx: &mut Ctx, ch: &Choices) -> R {
     ctx.describe(|| format!("constructor grid: ctor={} rate={rate} seektable option {seekopt} x bits 0..=34 x channels 0..=9 x 8 declared totals", ["sample", "byte", "channel"][kind]));
     ctx.api(40, (kind * 16 + ri) as u64);
     probe("c15_grid_slice");
+    // once per slice: declared totals around the number of points a seek table can hold, with a point
+    // requested for every frame (the placeholder table is sized from the declared total)
+    if (1..1 << 20).contains(&rate) && ch.draw("c15.grid.cap", 40) == 0 {
+        for frames in [932_066u64, 932_067, 932_068, 1_000_000] {
+            for (bs, chn, bps) in [(4096u16, 1u8, 16u32), (16, 2, 8)] {
+                let unit: u64 = match kind {
+                    0 => chn as u64,
+                    1 => chn as u64 * bps.div_ceil(8) as u64,
+                    _ => 1,
+                };
+                let total = frames * bs as u64 * unit;
+                let what = format!("{}::new(rate={rate}, bits={bps}, channels={chn}, total={total} = {frames} blocks of {bs}), seektable_frames(1)", ["FlacSampleWriter", "FlacByteWriter", "FlacChannelWriter"][kind]);
+                let r = guarded(ctx, &what, || ctor(kind, Options::default().block_size(bs).unwrap().seektable_frames(1), rate, bps, chn, Some(total)).map(|v| v.len()))?;
+                probe("c15_ctor_declared_total_at_seektable_capacity");
+                if let Err(e) = r {
+                    return viol("length-contract", format!("{what}: documented-legal values refused: {e}"));
+                }
+            }
+        }
+    }
     crate::monitor::note(format!("grid slice ctor={kind} rate={rate}"));
     for bps in 0..=34u32 {
         for chn in 0..=9u8 {
